@@ -167,6 +167,55 @@ def canon(n):
     return "<%s>" % k
 
 
+def expand(fn, e, depth=3, keep=()):
+    """Expression e with single-definition locals replaced by their initialiser (a new tree;
+    node ids of replaced sub-trees are those of the initialiser)."""
+    defs = local_defs(fn)
+
+    def go(x, d):
+        if isinstance(x, list):
+            return [go(y, d) for y in x]
+        if not isinstance(x, dict):
+            return x
+        if x.get("k") == "ref" and x.get("dk") == "local" and d > 0 and x.get("decl") not in keep:
+            ds = defs.get(x["decl"], [])
+            if len(ds) == 1:
+                return go(ds[0], d - 1)
+        if "k" not in x:
+            return x
+        out = {}
+        for k2, v in x.items():
+            if k2 in NONCHILD_KEYS:
+                out[k2] = v
+            elif isinstance(v, (dict, list)):
+                out[k2] = go(v, d)
+            else:
+                out[k2] = v
+        return out
+    return go(e, depth)
+
+
+def xcanon(fn, e, depth=3, keep=()):
+    """canon() after expanding single-definition locals."""
+    return canon(strip_all_casts(expand(fn, e, depth, keep)))
+
+
+COPY_CALLS = {"memcpy", "memmove", "std::memcpy", "std::memmove", "std::copy_n", "std::copy"}
+
+
+def copy_args(c):
+    """(dst, src, length node or None) of a raw copy call, else None."""
+    nm = callee_name(c)
+    a = c.get("args", [])
+    if nm in ("memcpy", "memmove", "std::memcpy", "std::memmove") and len(a) == 3:
+        return a[0], a[1], a[2]
+    if nm == "std::copy_n" and len(a) == 3:
+        return a[2], a[0], a[1]
+    if nm == "std::copy" and len(a) == 3:
+        return a[2], a[0], None
+    return None
+
+
 class Function:
     """One function definition with lazily built indexes."""
 
